@@ -76,6 +76,7 @@ pub fn dispatch(ctx: &mut Ctx) -> bool {
         #[cfg(feature = "c14")]
         "C14" => {
             c14::run(ctx);
+            c14::voicing_switches(ctx);
             c14::end_to_end(ctx);
         }
         #[cfg(feature = "c15")]
